@@ -98,6 +98,9 @@ func record(seed int64, tier, out string) {
 		copy(ue.KnasInt[:], ev.Corner16(r))
 		ue.ULCount.Set(uint16(h.ul0>>8), uint8(h.ul0))
 		dl0 := uint32(r.Intn(1 << 24))
+		if hi%2 == 0 {
+			dl0 = dl0&0xffff00 | 251 // the downlink sequence number wraps while this history runs (downlink messages at steps 4..11; a new context at step 0 or 5 starts it again at 0)
+		}
 		ue.DLCount.Set(uint16(dl0>>8), uint8(dl0))
 		w.Emit(ev.M{"ev": "Start", "id": id, "hist": hi, "enc": int(h.enc), "int": int(h.integ), "kenc": ev.Ints(ue.KnasEnc[:]),
 			"kint": ev.Ints(ue.KnasInt[:]), "ul": int(ue.ULCount.Get()), "dl": int(ue.DLCount.Get())})
@@ -112,6 +115,35 @@ func record(seed int64, tier, out string) {
 				plain = longs[(hi+3)%nlong]
 			case 6:
 				plain = gsm
+			}
+			if s%64 >= 4 && s%64 < 12 && hi%2 == 0 && !h.resets[s] {
+				// the network sends too: a protected downlink message (built here with the library's own primitives; TraceNasSec checks it
+				// against the specification before it judges what the UE made of it) goes through NASDecode between two uplink sends.  The
+				// uplink NAS COUNT is none of the downlink's business.
+				cnt := (ue.DLCount.Get() + 1) & 0xffffff
+				dplain := []byte{0x7e, 0x00, 0x54, byte(0xd0 + s%2)}
+				body := append([]byte{}, dplain...)
+				security.NASEncrypt(h.enc, ue.KnasEnc, cnt, 1, 1, body)
+				withSqn := append([]byte{byte(cnt)}, body...)
+				mac, _ := security.NASMacCalculate(h.integ, ue.KnasInt, cnt, 1, 1, withSqn)
+				pdu := append(append([]byte{0x7e, 0x02}, mac...), withSqn...)
+				var dm *nas.Message
+				var derr error
+				dp := ev.Catch(func() { dm, derr = tglib.NASDecode(ue, 2, append([]byte{}, pdu...)) })
+				obs := ev.M{"err": derr != nil || dp != "" || dm == nil, "dl": int(ue.DLCount.Get()), "plain": []int{}, "same": false}
+				if dm != nil && derr == nil && dp == "" {
+					want := nas.NewMessage()
+					pl := append([]byte{}, dplain...)
+					e2 := want.PlainNasDecode(&pl)
+					dm.SecurityHeader = nas.SecurityHeader{}
+					want.SecurityHeader = nas.SecurityHeader{}
+					obs["same"] = e2 == nil && reflect.DeepEqual(dm, want)
+					var re []byte
+					ev.Catch(func() { re, _ = dm.PlainNasEncode() })
+					obs["plain"] = ev.Ints(re)
+				}
+				w.Emit(ev.M{"ev": "Dec", "id": id, "hist": hi, "step": s, "hdr": 2, "pdu": ev.Ints(pdu), "plain": ev.Ints(dplain), "count": int(cnt), "obs": obs})
+				id++
 			}
 			if s == 8 || s == 9 {
 				// a send that must be refused (a message type without an encoder; octets that are no NAS message): nothing is sent, so
